@@ -69,10 +69,81 @@ def observe(m, full=False):
     return o
 
 
-def call(fmt, text, full=False, limit=LIMIT_S):
-    """One real call under the wall-clock limit (in this process)."""
+# entry points: (class, via).  String entry points get the text, path entry points get a file written by the harness
+# (bytes as they are: a damaged FILE is a byte sequence and may be invalid UTF-8).
+STRING_VIAS = ("loads_all", "loads")
+PATH_VIAS = ("load_all", "load", "ml.load_all", "ml.load", "stream")
+VIAS = {"Molecule": ("loads_all", "loads", "load_all", "load", "ml.load_all", "ml.load", "stream"),
+        "Structure": ("loads_all", "loads", "load_all", "load", "ml.load_all", "ml.load"),
+        "ConformerEnsemble": ("loads", "load", "ml.load")}
+PRIMARY = {"Molecule": "loads_all", "Structure": "loads_all", "ConformerEnsemble": "loads"}
+_tmp, _own = [None], [None]
+
+
+def _mkwork():
+    import tempfile
+    work = os.path.join(os.path.dirname(os.path.dirname(os.path.dirname(os.path.abspath(__file__)))), ".work")
+    os.makedirs(work, exist_ok=True)
+    return tempfile.mkdtemp(prefix="c10files-", dir=work)
+
+
+def _rmwork():
+    import shutil
+    if _tmp[0] and _own[0] == os.getpid():
+        shutil.rmtree(_tmp[0], ignore_errors=True)
+        _tmp[0] = None
+
+
+def _tmpfile(fmt, data):
+    if _tmp[0] is None or not os.path.isdir(_tmp[0]):
+        _tmp[0] = _mkwork()
+        _own[0] = os.getpid()
+    p = os.path.join(_tmp[0], f"damaged-{os.getpid()}.{fmt}")
+    with open(p, "wb") as f:
+        f.write(data if isinstance(data, bytes) else data.encode("utf-8"))
+    return p
+
+
+def _invoke(fmt, data, cls, via):
+    """the real call: returns the list of molecule-like objects (the conformers of an ensemble count as molecules)"""
     import molli as ml
-    fn = ml.Molecule.loads_all_mol2 if fmt == "mol2" else ml.Molecule.loads_all_xyz
+    C = getattr(ml, cls)
+    if via in STRING_VIAS:
+        if isinstance(data, bytes):
+            raise ValueError("byte-level damage can only be handed over as a file")
+        res = getattr(C, f"{via}_{fmt}")(data)
+    else:
+        path = _tmpfile(fmt, data)
+        if via in ("load_all", "load"):
+            res = getattr(C, f"{via}_{fmt}")(path)
+        elif via == "stream":
+            with open(path, "rt") as f:
+                res = getattr(C, f"load_all_{fmt}")(f)
+        elif via == "ml.load_all":
+            res = ml.load_all(path, otype=C) if cls != "Molecule" else ml.load_all(path)
+        elif via == "ml.load":
+            res = ml.load(path, otype={"Molecule": "molecule", "ConformerEnsemble": "ensemble"}.get(cls, C))
+        else:
+            raise ValueError(via)
+    if cls == "ConformerEnsemble":
+        return [_ConfView(res, i) for i in range(res.n_conformers)]
+    return list(res) if isinstance(res, (list, tuple)) else [res]
+
+
+class _ConfView:
+    """one conformer of an ensemble, seen as a molecule through the ensemble's public arrays"""
+    def __init__(self, ens, i):
+        import numpy as np
+        self.atoms, self.bonds, self.name = ens.atoms, ens.bonds, ens.name
+        self.n_atoms, self.n_bonds = ens.n_atoms, ens.n_bonds
+        self.coords = np.asarray(ens.coords)[i]
+        q = getattr(ens, "atomic_charges", None)
+        self.atomic_charges = None if q is None else np.asarray(q)[i]
+
+
+def call(fmt, data, full=False, limit=LIMIT_S, cls="Molecule", via="loads_all"):
+    """One real call under the wall-clock limit (in this process)."""
+    import molli as ml  # noqa
     _fired[0] = False
     old = signal.signal(signal.SIGALRM, _on_alarm)
     signal.setitimer(signal.ITIMER_REAL, limit, 0.5)
@@ -80,13 +151,12 @@ def call(fmt, text, full=False, limit=LIMIT_S):
         with warnings.catch_warnings():
             warnings.simplefilter("ignore")
             try:
-                res = fn(text)
+                res = _invoke(fmt, data, cls, via)
+                obs = [observe(m, full) for m in res]
                 signal.setitimer(signal.ITIMER_REAL, 0)
                 if _fired[0]:
                     return {"out": "timeout", "mols": []}
-                if not isinstance(res, (list, tuple)):
-                    res = [res]
-                return {"out": "ret", "mols": [observe(m, full) for m in res]}
+                return {"out": "ret", "mols": obs}
             except _Timeout:
                 return {"out": "timeout", "mols": []}
             except BaseException as e:                          # noqa: any exception is a rejection
@@ -115,24 +185,26 @@ MAX_TIMEOUTS = 16
 
 def _work(chunk):
     out, nto = [], 0
-    for cid, fmt, text, full in chunk:
+    for cid, fmt, text, full, *rest in chunk:
         if nto >= MAX_TIMEOUTS_PER_CHUNK:                        # a reader that spins on a whole class of inputs: enough seen
             out.append((cid, {"out": "skipped", "mols": []}))
             continue
-        o = call(fmt, text, full)
+        o = call(fmt, text, full, LIMIT_S, *rest)
         nto += o["out"] == "timeout"
         out.append((cid, o))
     _clear_caches()
     return out
 
 
-def _single(fmt, text, full, limit):
+def _single(fmt, text, full, limit, cls="Molecule", via="loads_all"):
     """last resort for a call that did not come back: its own interpreter under a hard timeout"""
     code = ("import sys, json; from mbv.adapters import readers as R; "
-            "d = json.load(sys.stdin); print('RESULT' + json.dumps(R.call(d['fmt'], d['text'], d['full'], d['limit'])))")
+            "d = json.load(sys.stdin); t = bytes.fromhex(d['hex']) if d['hex'] else d['text']; "
+            "print('RESULT' + json.dumps(R.call(d['fmt'], t, d['full'], d['limit'], d['cls'], d['via']))); R._rmwork()")
     try:
-        p = subprocess.run([sys.executable, "-c", code], input=json.dumps({"fmt": fmt, "text": text, "full": full,
-                                                                            "limit": limit}),
+        p = subprocess.run([sys.executable, "-c", code], input=json.dumps({"fmt": fmt, "text": None if isinstance(text, bytes) else text,
+                                                                            "hex": text.hex() if isinstance(text, bytes) else None,
+                                                                            "full": full, "limit": limit, "cls": cls, "via": via}),
                            capture_output=True, text=True, timeout=limit * 3 + 20)
         for line in p.stdout.splitlines():
             if line.startswith("RESULT"):
@@ -153,6 +225,7 @@ def run_cases(cases, workers=4, chunk=200, limit=LIMIT_S, chunks=None):
         return res
     if chunks is None:
         chunks = [cases[i:i + chunk] for i in range(0, len(cases), chunk)]
+    _tmp[0], _own[0] = _mkwork(), os.getpid()          # scratch directory for the damaged files (workers inherit it)
     ctx = mp.get_context("fork")
     pool = ctx.Pool(workers, maxtasksperchild=20)
     hung = False
@@ -174,6 +247,7 @@ def run_cases(cases, workers=4, chunk=200, limit=LIMIT_S, chunks=None):
         pool.terminate()
         pool.join()
     todo = [c for ch in chunks for c in ch if c[0] not in res]
-    for n, (cid, fmt, text, full) in enumerate(todo):
-        res[cid] = _single(fmt, text, full, limit) if (hung and n < 6) else {"out": "skipped", "mols": []}
+    for n, (cid, fmt, text, full, *rest) in enumerate(todo):
+        res[cid] = _single(fmt, text, full, limit, *rest) if (hung and n < 6) else {"out": "skipped", "mols": []}
+    _rmwork()
     return res
